@@ -126,6 +126,7 @@ struct Exec {
         if (!(c.res->rcs[r][opi].executed && c.res->rcs[r][opi].rc != NC_NOERR)) c.res->rcs[r][opi].rc = rc;   // keep the first error of compound ops
         c.res->rcs[r][opi].executed = true;
         if (!c.o.check_rc || any) return;
+        for (int alt : op.exp_rc_alt) if (rc == alt) return;
         if (rc != exp) fail("rc", opi, std::string("returned ") + ncmpi_strerrno(rc) + " expected " + ncmpi_strerrno(exp));
     }
     int exp_rc(Op &op) { return op.exp_rc_rank.empty() ? op.exp_rc : op.exp_rc_rank[r]; }
@@ -306,6 +307,33 @@ struct Exec {
             barrier(c.cp_arrived, opi, "checkpoint");
             if (r == 0) {
                 if (op.a[0] == 1) { auto ino = sim::g->fs.lookup(op.name); if (ino) c.snaps[op.file] = ino->vis; }
+                else if (op.a[0] == 5) { auto ino = sim::g->fs.lookup(op.name); c.snaps[2000 + op.file] = ino ? ino->vis : sim::Image(); }
+                else if (op.a[0] == 6 && c.snaps.count(2000 + op.file)) {
+                    // C15: the data op just before this checkpoint may only have changed bytes of the elements it addressed (+ the numrecs field)
+                    auto ino = sim::g->fs.lookup(op.name); sim::Image now = ino ? ino->vis : sim::Image();
+                    auto d = sim::image_diff(c.snaps[2000 + op.file], now);
+                    if (!d.empty()) {
+                        int k = opi - 1; while (k >= 0 && (c.p->ops[k].skip || c.p->ops[k].kind == OP_CHECKPOINT)) k--;
+                        std::vector<std::pair<long long, long long>> allowed; cdf::File hd; bool ok = cdf::decode_header(now, hd);
+                        if (ok) allowed.push_back({4, 4 + (hd.version == 5 ? 8 : 4)});
+                        // every data op since the snapshot contributes (iput + wait pairs)
+                        for (int q = k; q >= 0 && c.p->ops[q].kind != OP_CHECKPOINT; q--) {
+                            const Op &dop = c.p->ops[q]; if (dop.skip) continue;
+                            if (ok && (dop.kind == OP_PUT || dop.kind == OP_IPUT || dop.kind == OP_BPUT) && dop.var >= 0 && dop.var < (int)hd.vars.size())
+                                for (auto &a : dop.acc) if (a.active && a.exp_rc == NC_NOERR) for (auto e : a.elems) { long long off = cdf::elem_offset(hd, hd.vars[dop.var], e); allowed.push_back({off, off + cdf::type_size(hd.vars[dop.var].type)}); }
+                        }
+                        for (auto &rg : d) for (unsigned long long b = rg.first; b < rg.second; b++) {
+                            bool in = false; for (auto &al : allowed) if ((long long)b >= al.first && (long long)b < al.second) { in = true; break; }
+                            if (!in) fail("write-outside-target", opi, op.name + ": byte " + std::to_string(b) + " changed although it belongs neither to an element addressed by " + (k >= 0 ? op_to_string(c.p->ops[k]) : std::string("?")) + " nor to the record count");
+                        }
+                    }
+                }
+                else if (op.a[0] == 3) { auto ino = sim::g->fs.lookup(op.name); c.snaps[1000 + op.file] = ino ? ino->vis : sim::Image(); }
+                else if (op.a[0] == 4 && c.snaps.count(1000 + op.file)) {
+                    auto ino = sim::g->fs.lookup(op.name); sim::Image now = ino ? ino->vis : sim::Image();
+                    auto d = sim::image_diff(c.snaps[1000 + op.file], now);
+                    if (!d.empty() || now.size != c.snaps[1000 + op.file].size) fail("rejected-call-changed-file", opi, op.name + ": a call that returned an error changed the file (" + std::to_string(d.size()) + " byte range(s)" + (d.empty() ? "" : ", first at " + std::to_string(d[0].first)) + ", size " + std::to_string(c.snaps[1000 + op.file].size) + " -> " + std::to_string(now.size) + ")");
+                }
                 else if (op.a[0] == 2 && c.snaps.count(op.file)) {
                     std::string path; for (size_t k = opi; k-- > 0;) if (c.p->ops[k].kind == OP_ABORT && !c.p->ops[k].skip && c.p->ops[k].file == op.file) { path = c.p->ops[k].name; break; }
                     auto ino = sim::g->fs.lookup(path);
@@ -371,6 +399,30 @@ struct Exec {
         case OP_ATTACH: rc = lib([&] { return ncmpi_buffer_attach(me.ncid[op.file], op.a[0]); }); rc_check(op, opi, rc, exp_rc(op), op.rc_any); break;
         case OP_DETACH: rc = lib([&] { return ncmpi_buffer_detach(me.ncid[op.file]); }); rc_check(op, opi, rc, exp_rc(op), op.rc_any); break;
         case OP_INQ: do_inq(op, opi); break;
+        case OP_PROBE: {
+            int ncid = me.ncid[op.file]; int dummy = 0, v = 0, req = NC_REQ_NULL, stt = 0; MPI_Offset st[16] = {0}, ct[16]; for (auto &x : ct) x = 1; double val = 0;
+            rc = lib([&] {
+                switch (op.a[0]) {
+                case 0: return ncmpi_inq(ncid, &dummy, &dummy, &dummy, &dummy);
+                case 17: return ncmpi_inq_varid(ncid, "no_such_variable_zz", &v);
+                case 1: return ncmpi_def_dim(ncid, op.name.c_str(), 2, &v);
+                case 2: { int seven = 7; return ncmpi_put_att_int(ncid, NC_GLOBAL, op.name.c_str(), NC_INT, 1, &seven); }
+                case 15: return ncmpi_set_fill(ncid, op.a[1] ? NC_FILL : NC_NOFILL, &dummy);
+                case 4: return ncmpi_get_vara_double_all(ncid, 0, st, ct, &val);
+                case 5: return ncmpi_get_vara_double(ncid, 0, st, ct, &val);
+                case 6: { val = 1.0; return ncmpi_put_vara_double_all(ncid, 0, st, ct, &val); }
+                case 7: { val = 1.0; int r1 = ncmpi_iput_vara_double(ncid, 0, st, ct, &val, &req); if (r1 == NC_NOERR) { int r2 = ncmpi_cancel(ncid, 1, &req, &stt); if (r2 != NC_NOERR) return r2; } return r1; }
+                case 8: return ncmpi_wait_all(ncid, NC_REQ_ALL, nullptr, nullptr);
+                case 9: return ncmpi_wait(ncid, NC_REQ_ALL, nullptr, nullptr);
+                case 10: return ncmpi_cancel(ncid, NC_REQ_ALL, nullptr, nullptr);
+                case 11: return ncmpi_sync(ncid);
+                case 16: return ncmpi_sync_numrecs(ncid);
+                case 14: { int r1 = ncmpi_buffer_attach(ncid, 64); if (r1 != NC_NOERR) return r1; return ncmpi_buffer_detach(ncid); }
+                default: return NC_NOERR;
+                }
+            });
+            rc_check(op, opi, rc, exp_rc(op), op.rc_any); break;
+        }
         case OP_BADID: {
             int id;
             std::vector<int> open_ids; for (int x : me.ncid) if (x >= 0) open_ids.push_back(x);
